@@ -222,6 +222,10 @@ m('M137-permutation-closing-link-inside-loop', ['C16'], (P, "\tproductAccs = app
 m('M138-gate-reverses-wires-in-place', ['C15'], (G+'exponentiation_gate.go', "\tvar powerBits []gl.QuadraticExtensionVariable\n\tfor i := uint64(0); i < g.numPowerBits; i++ {\n\t\tpowerBits = append(powerBits, vars.localWires[g.wirePowerBit(i)])\n\t}\n", "\tpowerBits := vars.localWires[g.wirePowerBit(0) : g.wirePowerBit(0)+g.numPowerBits]\n\tfor lo, hi := 0, len(powerBits)-1; lo < hi; lo, hi = lo+1, hi-1 {\n\t\tpowerBits[lo], powerBits[hi] = powerBits[hi], powerBits[lo]\n\t}\n\tfor lo, hi := 0, len(powerBits)-1; lo < hi; lo, hi = lo+1, hi-1 {\n\t\tpowerBits[lo], powerBits[hi] = powerBits[hi], powerBits[lo]\n\t}\n"))
 m('M139-reducewithpowers-pads-callers-view', ['C08', 'C16'], (Q, "\tsum := ZeroExtension()\n\tfor i := len(terms) - 1; i >= 0; i-- {", "\tsum := ZeroExtension()\n\tif len(terms)%2 == 1 {\n\t\tterms = append(terms, ZeroExtension())\n\t}\n\tfor i := len(terms) - 1; i >= 0; i-- {"))
 
+m('M140-commit-tree-cursor-overwritten', ['C12'], (F, "\t\tcosetIndexBits := xIndexBits[arityBits:]\n\t\txIndexWithinCosetBits := xIndexBits[:arityBits]\n", "\t\tcosetIndexBits := xIndexBits[folded+arityBits:]\n\t\txIndexWithinCosetBits := xIndexBits[folded : folded+arityBits]\n"), (F, "\t\txIndexBits = cosetIndexBits\n\t}", "\t\tfolded = arityBits\n\t}"), (F, "\tfor i, arityBits := range f.friParams.ReductionArityBits {\n\t\tevals := roundProof.Steps[i].Evals\n", "\tfolded := uint64(0)\n\tfor i, arityBits := range f.friParams.ReductionArityBits {\n\t\tevals := roundProof.Steps[i].Evals\n"))
+m('M141-merkle-fold-two-mulacc-from-digest', ['C12'], (F, "\t\tinputs[2] = f.api.Select(bit, sibling, currentDigest)\n\t\tinputs[3] = f.api.Select(bit, currentDigest, sibling)\n", "\t\tdelta := f.api.Sub(sibling, currentDigest)\n\t\tinputs[2] = f.api.MulAcc(currentDigest, bit, delta)\n\t\tinputs[3] = f.api.MulAcc(currentDigest, f.api.Sub(1, bit), delta)\n"))
+m('M142-inverse-guard-arms-exchanged', ['C07', 'C05'], (B, "\tproductToCheck := p.api.Select(hasInv, product.Limb, frontend.Variable(1))", "\tproductToCheck := p.api.Select(isZero, product.Limb, frontend.Variable(1))"))
+
 # ---- behaviour-preserving refactors: must stay silent on every property
 ALL = ['C01', 'C02', 'C03', 'C04', 'C05', 'C06', 'C07', 'C08', 'C09', 'C10', 'C11', 'C12', 'C13', 'C14', 'C15', 'C16', 'C17', 'C18', 'C19', 'C20']
 m('R02-inline-assertLeadingZeros', [], (F, "\tf.assertLeadingZeros(friChallenges.FriPowResponse, f.friParams.Config)\n", "\tf.gl.RangeCheckWithMaxBits(friChallenges.FriPowResponse, 64-f.friParams.Config.ProofOfWorkBits)\n"))
@@ -294,6 +298,9 @@ m('R67-fri-final-compare-extension-helper', [], (F, "\tf.gl.AssertIsEqual(oldEva
 
 m('R68-gl-sponge-cursor-form', [], (PG, "\tfor i := 0; i < len(input); i += SPONGE_RATE {\n\t\tfor j := 0; j < SPONGE_RATE; j++ {\n\t\t\tif i+j < len(input) {\n\t\t\t\tstate[j] = input[i+j]\n\t\t\t}\n\t\t}\n", "\tfor start, end := 0, 0; start < len(input); start = end {\n\t\tend = start + SPONGE_RATE\n\t\tif end > len(input) {\n\t\t\tend = len(input)\n\t\t}\n\t\tfor pos := start; pos < end; pos++ {\n\t\t\tstate[pos-start] = input[pos]\n\t\t}\n"))
 m('R69-hint-quorem-helper', [], (B, "\tquotient := new(big.Int).Div(input, MODULUS)\n\tremainder := new(big.Int).Rem(input, MODULUS)\n\tresults[0] = quotient\n\tresults[1] = remainder\n", "\tresults[0], results[1] = quoRemModulus(input)\n"), (B, "// Computes the inverse of a field element x such that x * x^-1 = 1.\n", "func quoRemModulus(x *big.Int) (*big.Int, *big.Int) {\n\tquotient, remainder := new(big.Int), new(big.Int)\n\tquotient.QuoRem(x, MODULUS, remainder)\n\treturn quotient, remainder\n}\n\n// Computes the inverse of a field element x such that x * x^-1 = 1.\n"))
+
+m('R70-commit-tree-cursor-counter-form', [], (F, "\t\tcosetIndexBits := xIndexBits[arityBits:]\n\t\txIndexWithinCosetBits := xIndexBits[:arityBits]\n", "\t\tcosetIndexBits := xIndexBits[folded+arityBits:]\n\t\txIndexWithinCosetBits := xIndexBits[folded : folded+arityBits]\n"), (F, "\t\txIndexBits = cosetIndexBits\n\t}", "\t\tfolded += arityBits\n\t}"), (F, "\tfor i, arityBits := range f.friParams.ReductionArityBits {\n\t\tevals := roundProof.Steps[i].Evals\n", "\tfolded := uint64(0)\n\tfor i, arityBits := range f.friParams.ReductionArityBits {\n\t\tevals := roundProof.Steps[i].Evals\n"))
+m('R71-inverse-guard-on-iszero', [], (B, "\tproductToCheck := p.api.Select(hasInv, product.Limb, frontend.Variable(1))", "\tproductToCheck := p.api.Select(isZero, frontend.Variable(1), product.Limb)"))
 
 if __name__ == '__main__':
     import json, sys
